@@ -1,3 +1,89 @@
-/-! # C10 — property theorems (stub: filled in when the property's model is built) -/
+import ScenicModel.Props.C10Peg
+import ScenicModel.Props.C10Front
+import ScenicModel.Gen.PegGrammarC10
+import ScenicModel.Gen.FrontStateC10
+/-! # C10 — the front end is total: property theorems instantiated on the data regenerated from /repo
+
+Full statement of the property (properties.jsonl):
+  *for every input text, parsing and compiling either succeeds or fails with a Scenic syntax error naming a line
+  inside the input; it never escapes with an internal exception, never hangs, and always leaves the compiler's global
+  state inactive; every syntactic form the language reference shows as valid is accepted with the documented precedence.*
+
+What is proved here, for all inputs (no bound):
+* **never hangs** (parser): `scenic_parse_never_hangs` — the grammar of scenic.gram as pegen flattens it
+  (`Gen.pegGrammar`, ~700 rules) passes the checker `WF` (`gen_grammar_wf`, re-decided by the kernel on every run), hence
+  by `PegTotal.parse_terminates` both passes of `Parser.parse` finish within recursion depth linear in the number of
+  tokens, for every token string, whatever the terminals match and whatever the actions return or raise.
+* **state inactive afterwards**: `front_state_restored` — for the activation/deactivation data and the try/finally
+  skeleton extracted from veneer.py / translator.py (`Gen.frontData`), after any tree of nested compilations with
+  failures anywhere, `activity = 0`, the scenario stack is empty, 2D mode is off, and the only globals that may differ
+  from their initial values are those in `knownLeaks` (recorded defects; empty once they are repaired).
+  `front_state_restored_partial` is the form that holds for the *unguarded* `finally` of `_scenarioFromStream`
+  (scripts without a nested top-level call whose activation assertion fails); `unguarded_is_real` is the negation
+  witness for the excluded scripts while the guard is missing.
+Not provable in this model (settled by enumeration in tools/props/c10.py): that the Python action code raises
+only Scenic syntax errors with a line inside the input, and the acceptance of the documented forms. -/
 namespace Scenic.C10
+open Scenic.PegTotal Scenic.FrontState Scenic.Gen
+
+/-! ## parser -/
+
+/-- side condition on generated data: the flattened scenic.gram is well-formed -/
+theorem gen_grammar_wf : WF pegGrammar = true := by decide +kernel
+
+theorem gen_start_ok : pegStart < pegGrammar.rules.size := by decide +kernel
+
+/-- the real grammar: no rule call from any position with any cache hangs -/
+theorem scenic_grammar_terminates {σ : Type} (E : Env σ) (r p : Nat) (inv : Bool) (s : St σ)
+    (hr : r < pegGrammar.rules.size) (hp : p ≤ E.n) (hc : CInv E pegGrammar s.cache) :
+    (interp E pegGrammar (fuelBound pegGrammar E.n) r p inv s).1 ≠ .hang :=
+  wellformed_terminates gen_grammar_wf r p inv s hr hp hc
+
+/-- `parse_string` never hangs in the parser: both passes from the `file` rule terminate -/
+theorem scenic_parse_never_hangs {σ : Type} (E : Env σ) (o : σ) :
+    parse E pegGrammar (fuelBound pegGrammar E.n) pegStart o ≠ .hang :=
+  parse_terminates gen_grammar_wf pegStart o gen_start_ok
+
+/-! ## compiler state -/
+
+/-- globals that are written during compilation and never reset (known defects of /repo, see findings.d/C10.json);
+the side condition below fails as soon as a *new* leak appears -/
+def knownLeaks : List String := ["inInitialScenario"]
+
+def leakNames : List String := (leaks frontData).map (fun i => frontGlobalNames.getD i "?")
+
+/-- side condition on generated data: every global written on activation or by the compile-time API is reset by
+`deactivate`, except the recorded leaks -/
+theorem gen_veneer_resets_cover_writes : leakNames.all (fun n => knownLeaks.contains n) = true := by decide
+
+/-- side condition on generated data: `deactivate` restores 2D mode at activity 0 -/
+theorem gen_skeleton_ok : frontData.mode2DReset = true := by decide
+
+/-- after any compilation (guarded `finally`): inactive, and only recorded leaks may be dirty -/
+theorem front_state_restored (o : Opts) (ts : List Tok) (hg : frontData.sfsGuarded = true) :
+    (runTop frontData o ts).st.activity = 0 ∧ (runTop frontData o ts).st.stack = 0 ∧
+    (runTop frontData o ts).st.mode2D = false ∧ ∀ g ∈ (runTop frontData o ts).st.dirty, g ∈ leaks frontData := by
+  have := compile_restores_except_leaks frontData o ts gen_skeleton_ok (Or.inl hg)
+  exact ⟨this.2.1, this.2.2.1, this.2.2.2.1, this.2.2.2.2⟩
+
+/-- the same for the current, unguarded skeleton: all scripts without a nested top-level call whose activation
+assertion fails (what is missing for the full statement is exactly `frontData.sfsGuarded = true`) -/
+theorem front_state_restored_partial (o : Opts) (ts : List Tok) (hp : plainTops ts = true) :
+    (runTop frontData o ts).st.activity = 0 ∧ (runTop frontData o ts).st.stack = 0 ∧
+    (runTop frontData o ts).st.mode2D = false ∧ ∀ g ∈ (runTop frontData o ts).st.dirty, g ∈ leaks frontData := by
+  have := compile_restores_except_leaks frontData o ts gen_skeleton_ok (Or.inr hp)
+  exact ⟨this.2.1, this.2.2.1, this.2.2.2.1, this.2.2.2.2⟩
+
+/-- negation witness for the full statement on the current data: while the `finally` is unguarded, a nested
+`scenarioFromString(…, params=…)` leaves `activity = -1` -/
+theorem unguarded_is_real (h : frontData.sfsGuarded = false) :
+    (runTop frontData Opts.plain witnessScript).st.activity = -1 :=
+  unguarded_witness frontData h
+
+/-- and each recorded leak is reachable: one compile-time write suffices -/
+theorem leak_is_real (g : Nat) (hg : g ∈ leaks frontData) (hw : frontData.compileWrites.contains g = true) :
+    g ∈ (runTop frontData Opts.plain [Tok.write g]).st.dirty := by
+  simp only [leaks, List.mem_filter, Bool.and_eq_true, Bool.not_eq_true'] at hg
+  exact leak_witness frontData g hw hg.2.1 hg.2.2
+
 end Scenic.C10
